@@ -365,6 +365,53 @@ def hello_random_fresh_per_handshake(chk):
     chk.floor('hello random sends', n, 2)
 
 
+def hardware_seeder_feeds_all(chk):
+    """On the ESP8266 (and the Pico) the DRBG seed comes from the hardware generator, 32 bits at a time, into a local array that is then
+    injected: every element of the array must be drawn (loop bound = element count) and the injected length must be the size of the
+    array in *bytes* - a word count in its place feeds a quarter of what was drawn, and seeds that agree on those bytes give
+    identical streams.  sysrng.c is compiled in the two configurations that the host build never sees."""
+    R = 'hardware-seeder-feeds-all'
+    s = 'src/rand/sysrng.c'
+    n = 0
+    for config, fn, src_call in (('rnd_esp8266', 'seeder_esp8266', 'phy_get_rand'), ('rnd_pico', 'seeder_pico', '__picoRand')):
+        u = build.load_unit(s, 'm2r', config)
+        F = next((irf.Func(u, f) for f in u['functions'] if f['name'] == fn and f.get('blocks')), None)
+        if F is None:
+            raise AnalysisBroken('%s is not compiled in configuration %s' % (fn, config))
+        arrs = [i for i in F.insts.values() if i['op'] == 'alloca']
+        upd = [c for c in F.calls() if c.get('callee') is None]
+        draws = [c for c in F.calls(src_call)]
+        if len(upd) != 1 or not draws:
+            raise AnalysisBroken('%s [%s]: %d update calls, %d draws' % (fn, config, len(upd), len(draws)))
+        c = upd[0]
+        args = c['ops']
+        b, off = F.addr_of(args[1])
+        n += 1
+        inst = '%s [%s]: the DRBG is updated with the whole array the hardware words were drawn into' % (fn, config)
+        A = F.insts[b['v']] if b['k'] == 'i' and F.insts[b['v']]['op'] == 'alloca' else None
+        size = A.get('asize') or A.get('size') if A else None
+        if A is None or off != 0:
+            chk.violation(R, inst, F.where(c), 'the data pointer is not the start of a local array', key='%s %s ptr' % (R, fn))
+            continue
+        if size is None:
+            import re as _re
+            m = _re.match(r'\[(\d+) x i(\d+)\]', A.get('aty') or A.get('ety') or A.get('ty', ''))
+            size = int(m.group(1)) * int(m.group(2)) // 8 if m else None
+        ln = args[2].get('v') if args[2]['k'] == 'c' else None
+        # the fill loop: store of the drawn word at tmp[i], i < bound
+        bounds = [i['ops'][1]['v'] for i in F.insts.values() if i['op'] == 'icmp' and i['ops'][1]['k'] == 'c' and i['pred'] in ('ult', 'slt')]
+        if size is None:
+            raise AnalysisBroken('%s: size of the local array unknown (%s)' % (fn, A))
+        if ln != size:
+            chk.violation(R, inst, F.where(c), 'the array holds %d bytes, the update length is %s: %s' % (size, ln if ln is not None else 'not a constant',
+                          'only the first %s bytes of the hardware output reach the DRBG' % ln if isinstance(ln, int) and ln < size else 'length mismatch'), key='%s %s len' % (R, fn))
+        elif bounds != [size // 4]:
+            chk.violation(R, inst, F.where(c), 'the fill loop runs to %s, the array has %d words' % (bounds, size // 4), key='%s %s loop' % (R, fn))
+        else:
+            chk.ok(R, inst, F.where(c), '%d bytes drawn and injected' % size)
+    chk.floor('hardware seeders', n, 2)
+
+
 def seed_all_bytes(chk):
     """"different seeds give different streams": every byte of an injected seed must reach the DRBG.  Decided part: with the seed
     length fixed to K, a single (non-looping) DRBG update whose length folds to a constant below K necessarily drops seed bytes."""
@@ -571,6 +618,7 @@ def run(tier):
     session_id_fresh(chk)
     hello_random_drawn(chk)
     hello_random_fresh_per_handshake(chk)
+    hardware_seeder_feeds_all(chk)
     seq_rules(chk)
     seq_encoding(chk)
     return chk.finish()
